@@ -79,7 +79,7 @@ func Gen(t *rapid.T) *Case {
 		md = 48
 	}
 	o := gen.ImageOpts{MaxDim: md, MaxArea: md * md, Comps: []int{1, 3}, PMin: 8, PMax: 16,
-		Classes: []string{"noise", "noise", "noise", "twolevel", "gradient", "sparse"}, LiteralMax: 36}
+		Classes: []string{"noise", "noise", "noise", "twolevel", "gradient", "sparse", "lpgain"}, LiteralMax: 36}
 	im := gen.ImageGen(o).Draw(t, "img")
 	im.P = rapid.SampledFrom([]int{8, 12, 16}).Draw(t, "P")
 	if im.Pix != nil {
